@@ -43,7 +43,14 @@ HINTS = {
         "field": {"access_type": "AccessType", "reqs": "PySet Nat"},
     }
 }
-MODULES = {"reg_access": "src/reg_access.py"}
+HINTS["sim_utils"] = {
+    # the two leaf predicates of the simulator's structural-hazard logic; both flags are consumed by truthiness
+    "param": {"mem_busy": "Bool", "mem_req": "Bool", "width": "Nat", "unit_util": "List Nat"},
+    "field": {},
+    "ret": {"mem_unavail": "Bool"},
+}
+HINTS["reg_access"]["ret"] = {}
+MODULES = {"reg_access": "src/reg_access.py", "sim_utils": "src/sim_services/_utils.py"}
 
 
 def ann_to_lean(node, hints_kind, name, mod):
@@ -320,8 +327,6 @@ class Translator:
                 continue
             if isinstance(st, ast.Return):
                 val = "()" if st.value is None else self.expr(st.value, cls)
-                if st.value is not None and isinstance(st.value, (ast.BoolOp,)):
-                    pass
                 out.append(f"{ind}return ({val}, self)" if mut else f"{ind}return {val}")
             elif isinstance(st, ast.Assign):
                 if len(st.targets) != 1 or not isinstance(st.targets[0], ast.Name):
@@ -398,6 +403,8 @@ class Translator:
 
     # ------------------------------------------------------------------ definitions
     def ret_type(self, fn: ast.FunctionDef) -> str:
+        if fn.name in HINTS[self.mod].get("ret", {}):
+            return HINTS[self.mod]["ret"][fn.name]
         if fn.returns is None:
             raise Unsupported(fn, "missing return annotation")
         return ann_to_lean(fn.returns, "param", "", self.mod)
